@@ -682,6 +682,36 @@ fn main() {
         });
         sink.merge(sid);
     }
+    // (8) every registry name followed / preceded by filler of every length 1..=300 (and 512, 1024, 4096, 65536), four fillers:
+    //     a lookup keyed on a hash, a length class or a prefix of the query answers for some of them
+    {
+        let names: Vec<&String> = cx.by_name.keys().collect();
+        let sf = par_run(run.threads, names.len(), |i, sink| {
+            let name = names[i];
+            let mut n = 0u64;
+            let lens: Vec<usize> = (1..=300).chain([512, 1024, 4096, 65536]).collect();
+            for fill in ['_', ' ', 'A', '\0'] {
+                for &l in &lens {
+                    if l > 300 && i % 16 != 0 {
+                        continue;
+                    }
+                    let pad: String = std::iter::repeat(fill).take(l).collect();
+                    for q in [format!("{}{}", name, pad), format!("{}{}", pad, name)] {
+                        n += 1;
+                        if TlsCipherSuite::from_name(&q).is_some() || <&TlsCipherSuite>::try_from(q.as_str()).is_ok() {
+                            for (k, w) in check_name_query(&cx, &q) {
+                                let shown = format!("{:.80}..(len {})", q, q.len());
+                                sink.violation(format!("name {} {}", shown, k), w.replace(&q, &shown), json!({"kind":"name","query":q}));
+                            }
+                        }
+                    }
+                }
+            }
+            sink.evals += n;
+            sink.bump("names with filler of every length", n);
+        });
+        sink.merge(sf);
+    }
     // (7) queries that alias the crate's own static strings: every proper prefix and suffix of every suite's `name`
     //     (and of its neighbours in memory) taken as a slice of that very static, not as a copy - a comparison by
     //     address or by prefix answers for these
@@ -718,7 +748,7 @@ fn main() {
     cov.insert("exhaustive".into(), json!(true));
     cov.insert("registry_rows".into(), json!(cx.rows.len()));
     cov.insert("rule".into(), json!(
-        "all 65536 ids through 4 lookup routes (listed ids: all 10 columns + derived sizes against an independent reading of scripts/tls-ciphersuites.txt; name-token agreement); all registry names plus every proper prefix, single-character substitution (4-letter alphabet), deletion, appended/prepended character, case change and alias-style respelling (SSL_/tls_/no prefix, other separators, OpenSSL-like abbreviations, surrounding blanks) through both name lookups; every string of length <= 5 [6] over the 37-letter alphabet of registry names, bare and behind TLS_, through both name lookups (expected answer: nothing); every id written as a string in 19-23 notations (hex / decimal / IANA byte pair / Debug texts) through both name lookups; every proper prefix and suffix of every registry name passed as a slice of the crate's own static string; committed snapshot of today's assignments. Non-trivial: ids that are listed or adjacent to a listed id; every name query"));
+        "all 65536 ids through 4 lookup routes (listed ids: all 10 columns + derived sizes against an independent reading of scripts/tls-ciphersuites.txt; name-token agreement); all registry names plus every proper prefix, single-character substitution (4-letter alphabet), deletion, appended/prepended character, case change and alias-style respelling (SSL_/tls_/no prefix, other separators, OpenSSL-like abbreviations, surrounding blanks) through both name lookups; every string of length <= 5 [6] over the 37-letter alphabet of registry names, bare and behind TLS_, through both name lookups (expected answer: nothing); every id written as a string in 19-23 notations (hex / decimal / IANA byte pair / Debug texts) through both name lookups; every proper prefix and suffix of every registry name passed as a slice of the crate's own static string; every registry name with filler of every length 1..=300 (4 fill characters, before and after); committed snapshot of today's assignments. Non-trivial: ids that are listed or adjacent to a listed id; every name query"));
     // the same check against the crate built with all cargo features (std, serialize, unstable)
     let mut sink = sink;
     run.all_features_variant(&mut sink);
